@@ -4,6 +4,7 @@ package main
 
 import (
 	"context"
+	"errors"
 	"flag"
 	"fmt"
 	"math/rand"
@@ -191,8 +192,43 @@ func modeReuse(n int) {
 	runWorkers(t, 12, n/12+1, 15*time.Millisecond, 220*time.Millisecond, false)
 	workerPause = 0
 	time.Sleep(250 * time.Millisecond) // let the workers that outlived their callers finish
+	// payloads of more than 65535 octets cannot be framed: the exchange is refused and nothing of it reaches the
+	// server - not even when what a wrapped length prefix would frame is a query, followed by another one
+	for k := 0; k < 8; k++ {
+		overExchange(t, k)
+		doExchange(t, rand.New(rand.NewSource(seed+int64(k))), 200*time.Millisecond, false)
+	}
+	time.Sleep(250 * time.Millisecond)
 	t.Close()
 	time.Sleep(50 * time.Millisecond)
+}
+
+func overExchange(u exchanger, k int) {
+	mk := func() []byte {
+		q := new(dns.Msg)
+		q.SetQuestion(exName(int(exCtr.Add(1))), dns.TypeA) // exchanges that never begin: the server must not see them
+		q.Id = uint16(4000 + k)
+		w, err := q.Pack()
+		if err != nil {
+			panic(err)
+		}
+		return w
+	}
+	q1, q2 := mk(), mk()
+	m := append([]byte{}, q1...)
+	m = append(m, byte(len(q2)>>8), byte(len(q2)))
+	m = append(m, q2...)
+	m = append(m, make([]byte, 65536+len(q1)-len(m)+[]int{0, 1, 700}[k%3])...)
+	if k%3 != 0 {
+		m = m[:65536+k]
+	}
+	ctx, cancel := context.WithTimeout(context.Background(), 300*time.Millisecond)
+	defer cancel()
+	r, err := u.ExchangeContext(ctx, m)
+	if r != nil {
+		releaseMsg(r)
+	}
+	tr.Emit("over.end", "len", len(m), "refused", errors.Is(err, transport.ErrPayloadOverFlow), "reply", r != nil)
 }
 
 // C16: UDP upstream with TCP fallback; per exchange the server script fixes both legs
